@@ -25,6 +25,11 @@ def c37(c):
     c.cov['samples'] = res['samples'][:2]
     c.cov['unit_bytes'] = res['extra'].get('unit_bytes')
     c.cov['rule'] = 'TLC -simulate behaviours of Limits.tla (3 channels, limit 2, queue limit 3 pushes) replayed on a real client with asynchronous subscribe callbacks; non-trivial = completed behaviour, distinct by step list'
+    # map subscriptions have their own entry (handleMapSubscribeCommand): spec/MapSub/MapLimits.tla
+    from fam import mapsub
+    rule = c.cov['rule']
+    mapsub.c37_map(c)
+    c.cov['rule'] = rule + ' || map subscribe commands: ' + str(c.cov.get('rule') if c.cov.get('rule') != rule else 'MapLimits.tla behaviours replayed on a real node (every first-command shape, limit 2, name bound 8)')
     c.assumptions += ['ClientQueueMaxSize set to exactly 3 encoded publication pushes (measured), writer parked in Transport.Write with one frame in flight',
                       'map subscriptions (mapSubscribing also counts towards the limit) are not exercised here']
 
